@@ -620,3 +620,162 @@ Proof.
   rewrite !lower_app, (lower_digits _ FA), (lower_digits _ FB), Lns, Lew, PA, PB, PC.
   unfold x. rewrite <- !app_assoc. reflexivity.
 Qed.
+
+(* ================================================================== *)
+(* Dictionary-level idempotence: the attributes ARE the decomposition of the final string *)
+Definition comp_fields (g1 gn gd : option str) (undef err : str) : str * option Z * option str * bool :=
+  if nonempty gn && nonempty gd then
+    (match g1 with Some v => lower v | None => err end, match gn with Some v => py_int v | None => None end, option_map lower gd, false)
+  else if opt_str_eqb g1 undef then (undef, None, None, true) else (err, None, None, false).
+
+Definition sec_fields (g9 : option str) : option str * option Z * bool :=
+  match g9 with
+  | Some v => match py_int v with
+              | Some z => (Some v, Some z, false)
+              | None => if str_eqb v MC_UNDEF_SEC then (Some v, None, true) else (Some MC_ERR_SEC, None, false)
+              end
+  | None => (Some MC_ERR_SEC, None, false)
+  end.
+
+Definition dict_of_fields (F1 F2 : str * option Z * option str * bool) (F3 : option str * option Z * bool) : trsdict :=
+  let '(twp, twp_num, twp_ns, twp_undef) := F1 in
+  let '(rge, rge_num, rge_ew, rge_undef) := F2 in
+  let '(sec, sec_num, sec_undef) := F3 in
+  mktrsdict (twp ++ rge ++ match sec with Some v => v | None => [78; 111; 110; 101]%N end)
+            twp twp_num twp_ns twp_undef rge rge_num rge_ew rge_undef sec sec_num sec_undef.
+
+Lemma dict_of_split g : dict_of g =
+  dict_of_fields (comp_fields (g 1) (g 3) (g 4) MC_UNDEF_TWP MC_ERR_TWP) (comp_fields (g 5) (g 7) (g 8) MC_UNDEF_RGE MC_ERR_RGE) (sec_fields (g 9)).
+Proof. reflexivity. Qed.
+
+Inductive cfields (ds : list (N * N)) (a : str) (F : str * option Z * option str * bool) : Prop :=
+| CF_valid w d : a = w ++ [d] -> 1 <= length w <= 3 -> Forall (inset DIG) w -> inset ds d ->
+                 F = (w ++ lower [d], py_int w, Some (lower [d]), false) -> cfields ds a F
+| CF_err : a = ERR4 -> F = (ERR4, None, None, false) -> cfields ds a F
+| CF_und : a = UND4 -> F = (UND4, None, None, true) -> cfields ds a F.
+
+Lemma comp_fields_rel ds a gi gn gd :
+  comp_shape DIG XS ZS US ds a gi gn gd -> cfields ds a (comp_fields (Some a) gn gd UND4 ERR4).
+Proof.
+  intros [w d Ha Hl Hf Hd _ -> ->|c1 c2 c3 c4 Ha I1 I2 I3 I4 _ -> ->|c1 c2 c3 c4 Ha I1 I2 I3 I4 _ -> ->].
+  - eapply CF_valid; try eassumption. unfold comp_fields.
+    replace (nonempty (Some w)) with true by (destruct w; [cbn in Hl; lia | reflexivity]). cbn [nonempty andb option_map].
+    rewrite Ha, lower_app, (lower_digits _ Hf). reflexivity.
+  - apply XS_point in I1, I2, I3. apply ZS_point in I4. subst. apply CF_err; reflexivity.
+  - apply US_point in I1, I2, I3. apply ZS_point in I4. subst. apply CF_und; reflexivity.
+Qed.
+
+Lemma cfields_cshape ds a F : cfields ds a F -> cshape ds a.
+Proof. intros [w d Ha Hl Hf Hd _|Ha _|Ha _]; [eapply CSh_valid; eassumption | apply CSh_err; exact Ha | apply CSh_und; exact Ha]. Qed.
+
+Lemma not_dig_88 : ~ inset DIG 88%N.
+Proof. intros K. destruct (dig_facts _ K) as (_ & _ & _ & _ & _ & _ & _ & _ & K' & _). discriminate K'. Qed.
+Lemma not_dig_95 : ~ inset DIG 95%N.
+Proof. intros K. destruct (dig_facts _ K) as (_ & _ & _ & K' & _). apply K'. reflexivity. Qed.
+
+Lemma cfields_fun ds a F F' : letters_ok ds -> cfields ds a F -> cfields ds a F' -> F = F'.
+Proof.
+  intros Hds H H'.
+  destruct H as [w d -> Hl Hf Hd ->| -> -> | -> ->]; destruct H' as [w' d' E Hl' Hf' Hd' ->| E -> | E ->]; try reflexivity; try discriminate E.
+  - destruct (digit_prefix_unique w w' d d' [] [] Hf Hf' (Hds _ Hd) (Hds _ Hd') E) as (-> & -> & _). reflexivity.
+  - exfalso. destruct w as [|c w]; [cbn in Hl; lia|]. cbn in E. injection E as -> _. inversion Hf; subst. exact (not_dig_88 H1).
+  - exfalso. destruct w as [|c w]; [cbn in Hl; lia|]. cbn in E. injection E as -> _. inversion Hf; subst. exact (not_dig_95 H1).
+  - exfalso. destruct w' as [|c w']; [cbn in Hl'; lia|]. cbn in E. injection E as <- _. inversion Hf'; subst. exact (not_dig_88 H1).
+  - exfalso. destruct w' as [|c w']; [cbn in Hl'; lia|]. cbn in E. injection E as <- _. inversion Hf'; subst. exact (not_dig_95 H1).
+Qed.
+
+Definition f1 (F : str * option Z * option str * bool) : str := let '(a, _, _, _) := F in a.
+
+(* the fields computed for the normalised component are the same fields *)
+Lemma cfields_norm ds a F : low_closed ds -> cfields ds a F -> cfields ds (f1 F) F.
+Proof.
+  intros Hlow [w d Ha Hl Hf Hd ->| _ -> | _ ->]; cbn [f1]; [|apply CF_err; reflexivity | apply CF_und; reflexivity].
+  destruct (Hlow d Hd) as (dl & L & Hdl & Ldl). rewrite L. eapply CF_valid; [reflexivity | exact Hl | exact Hf | exact Hdl|]. rewrite Ldl. reflexivity.
+Qed.
+
+Inductive sfields (c : str) (F : option str * option Z * bool) : Prop :=
+| SF_none : c = [] -> F = (Some MC_ERR_SEC, None, false) -> sfields c F
+| SF_dig d1 d2 z : c = [d1; d2] -> inset DIG d1 -> inset DIG d2 -> py_int c = Some z -> F = (Some c, Some z, false) -> sfields c F
+| SF_err : c = MC_ERR_SEC -> F = (Some MC_ERR_SEC, None, false) -> sfields c F
+| SF_und : c = MC_UNDEF_SEC -> F = (Some MC_UNDEF_SEC, None, true) -> sfields c F.
+
+Lemma sec_fields_rel c o :
+  ((c = [] /\ o = None) \/ (sec_shape DIG XS US c /\ o = Some c)) -> sfields c (sec_fields o).
+Proof.
+  intros [[-> ->]|[H ->]]; [apply SF_none; reflexivity|].
+  destruct H as [d1 d2 -> I1 I2|c1 c2 -> I1 I2|c1 c2 -> I1 I2].
+  - unfold sec_fields. destruct (py_int [d1; d2]) as [z|] eqn:E; [|exfalso; exact (py_int_two_digits _ _ I1 I2 E)].
+    apply (SF_dig _ _ d1 d2 z); auto.
+  - apply XS_point in I1, I2. subst. apply SF_err; reflexivity.
+  - apply US_point in I1, I2. subst. apply SF_und; reflexivity.
+Qed.
+
+Definition s1 (F : option str * option Z * bool) : str := let '(o, _, _) := F in match o with Some v => v | None => [] end.
+
+Lemma sfields_sshape (c : str) F : sfields c F -> sshape c.
+Proof.
+  intros [Hc _|d1 d2 z Hc I1 I2 _ _|Hc _|Hc _]; [apply SSh_none; exact Hc | eapply SSh_dig; eassumption | apply SSh_err; exact Hc | apply SSh_und; exact Hc].
+Qed.
+
+Lemma sfields_norm (c : str) F : sfields c F -> sfields (s1 F) F /\ s1 F <> [].
+Proof.
+  intros [-> ->|d1 d2 z -> I1 I2 P ->| -> -> | -> ->]; cbn [s1]; (split; [|discriminate]).
+  - apply SF_err; reflexivity.
+  - eapply SF_dig; eauto.
+  - apply SF_err; reflexivity.
+  - apply SF_und; reflexivity.
+Qed.
+
+Lemma sfields_fun (c : str) F F' : c <> [] -> sfields c F -> sfields c F' -> F = F'.
+Proof.
+  intros Hne H H'.
+  destruct H as [Hc _|d1 d2 z -> I1 I2 P ->| -> -> | -> ->]; [contradiction | | |];
+    destruct H' as [E _|e1 e2 z' E J1 J2 P' ->|E ->|E ->]; try discriminate E; try reflexivity.
+  - injection E as <- <-. rewrite P in P'. injection P' as <-. reflexivity.
+  - exfalso. injection E as -> ->. exact (not_dig_88 I1).
+  - exfalso. injection E as -> ->. exact (not_dig_95 I1).
+  - exfalso. injection E as <- <-. exact (not_dig_88 J1).
+  - exfalso. injection E as <- <-. exact (not_dig_95 J1).
+Qed.
+
+(* the dictionary of any matched string, in terms of its decomposition *)
+Lemma dict_of_matched x mo : x <> [] -> fullmatch trs_unpacker_regex G x = Some mo ->
+  exists a b c F1 F2 F3, x = a ++ b ++ c /\ cfields NS a F1 /\ cfields EW b F2 /\ sfields c F3 /\
+    trs_to_dict (Some x) = dict_of_fields F1 F2 F3.
+Proof.
+  intros Hne Hfm. destruct (fullmatch_groups x mo Hfm) as (a & b & c & Hx & G1 & S1 & G5 & S5 & S9).
+  exists a, b, c. eexists. eexists. eexists. split; [exact Hx|].
+  split; [exact (comp_fields_rel NS a _ _ _ S1)|]. split; [exact (comp_fields_rel EW b _ _ _ S5)|]. split; [exact (sec_fields_rel c _ S9)|].
+  etransitivity; [exact (trs_to_dict_match x mo Hne Hfm)|]. rewrite dict_of_split. cbv beta. rewrite G1, G5. reflexivity.
+Qed.
+
+Theorem trs_to_dict_idem_some x : x <> [] -> trs_to_dict (Some (d_trs (trs_to_dict (Some x)))) = trs_to_dict (Some x).
+Proof.
+  intros Hne. destruct (fullmatch trs_unpacker_regex G x) as [mo|] eqn:Hfm.
+  - destruct (dict_of_matched x mo Hne Hfm) as (a & b & c & F1 & F2 & F3 & Hx & C1 & C2 & C3 & ->).
+    destruct F1 as [[[na n1] d1] u1] eqn:E1. destruct F2 as [[[nb n2] d2] u2] eqn:E2. destruct F3 as [[oc n3] u3] eqn:E3.
+    cbn [dict_of_fields d_trs]. rewrite <- E1 in C1. rewrite <- E2 in C2. rewrite <- E3 in C3.
+    pose proof (cfields_norm NS a F1 NS_low C1) as N1. pose proof (cfields_norm EW b F2 EW_low C2) as N2.
+    destruct (sfields_norm c F3 C3) as [N3 Nne].
+    rewrite E1 in N1. rewrite E2 in N2. rewrite E3 in N3, Nne. cbn [f1] in N1, N2. cbn [s1] in N3, Nne.
+    destruct oc as [nc|]; [|exfalso; apply Nne; reflexivity]. cbv iota in N3, Nne |- *.
+    set (y := na ++ nb ++ nc).
+    pose proof (cfields_cshape _ _ _ N1) as Sa. pose proof (cfields_cshape _ _ _ N2) as Sb. pose proof (sfields_sshape _ _ N3) as Sc.
+    assert (Hney : y <> []) by (pose proof (cshape_nonempty _ _ Sa); unfold y; destruct na; [contradiction | discriminate]).
+    pose proof (unpacker_complete _ _ _ Sa Sb Sc) as Hm. fold y in Hm.
+    destruct (fullmatch trs_unpacker_regex G y) as [mo'|] eqn:Hfm'; [|contradiction]. clear Hm.
+    destruct (dict_of_matched y mo' Hney Hfm') as (a' & b' & c' & F1' & F2' & F3' & Hy & C1' & C2' & C3' & Ed).
+    etransitivity; [exact Ed|].
+    destruct (cshape_unique NS na a' _ _ NS_letters Sa (cfields_cshape _ _ _ C1') Hy) as [<- Ey].
+    destruct (cshape_unique EW nb b' _ _ EW_letters Sb (cfields_cshape _ _ _ C2') Ey) as [<- <-].
+    rewrite (cfields_fun NS na _ _ NS_letters C1' N1), (cfields_fun EW nb _ _ EW_letters C2' N2), (sfields_fun nc _ _ Nne C3' N3).
+    reflexivity.
+  - rewrite (trs_of_nomatch x Hne Hfm).
+    unfold trs_to_dict at 2. destruct x as [|c0 x']; [contradiction|]. rewrite Hfm. vm_compute. reflexivity.
+Qed.
+
+(* for every argument of TRS(...): the attributes are the decomposition of the final string *)
+Theorem trs_to_dict_idem : forall x : option str, trs_to_dict (Some (d_trs (trs_to_dict x))) = trs_to_dict x.
+Proof.
+  intros [[|c0 x]|]; [vm_compute; reflexivity | apply trs_to_dict_idem_some; discriminate | vm_compute; reflexivity].
+Qed.
